@@ -54,7 +54,7 @@ func main() {
 	rep := vlib.NewReport(cfg)
 	rep.Rule(rule)
 	nsh := cfg.N(16, 64)
-	per := uint64(cfg.N(250, 1600))
+	per := uint64(cfg.N(250, 1250))
 	namesPer := uint64(cfg.N(4000, 40000))
 	var specs []vlib.ChildSpec
 	if cfg.Replay != "" {
@@ -85,13 +85,14 @@ func main() {
 			return quick
 		}
 		for _, st := range []string{"dev", "current", "newest-any", "newest-stable", "fallback-newest"} {
-			rep.Floor(rep.Counter("select_step_"+st) >= q(40, 2000), "selection step %s prescribed only %d times", st, rep.Counter("select_step_"+st))
+			rep.Floor(rep.Counter("select_step_"+st) >= q(200, 4000), "selection step %s prescribed only %d times", st, rep.Counter("select_step_"+st))
 		}
-		rep.Floor(rep.Counter("op_purge") >= q(300, 15000), "purges=%d", rep.Counter("op_purge"))
-		rep.Floor(rep.Counter("purge_resources_with_removals") >= q(20, 1000), "purges that removed files=%d", rep.Counter("purge_resources_with_removals"))
-		rep.Floor(rep.Counter("blacklist_accepted") >= q(100, 5000) && rep.Counter("blacklist_refused_last_version") >= q(5, 250),
+		rep.Floor(rep.Counter("selected_blacklisted_fallback-newest") >= q(100, 2000), "blacklisted version prescribed as last resort only %d times", rep.Counter("selected_blacklisted_fallback-newest"))
+		rep.Floor(rep.Counter("op_purge") >= q(1500, 30000), "purges=%d", rep.Counter("op_purge"))
+		rep.Floor(rep.Counter("purge_resources_with_removals") >= q(300, 6000), "purges that removed files=%d", rep.Counter("purge_resources_with_removals"))
+		rep.Floor(rep.Counter("blacklist_accepted") >= q(500, 10000) && rep.Counter("blacklist_refused_last_version") >= q(100, 2000),
 			"blacklist accepted=%d refused-last=%d", rep.Counter("blacklist_accepted"), rep.Counter("blacklist_refused_last_version"))
-		rep.Floor(rep.Counter("getfile_local") >= q(300, 15000) && rep.Counter("getfile_not_available") >= q(20, 1000) && rep.Counter("getfile_downloaded") >= q(20, 1000),
+		rep.Floor(rep.Counter("getfile_local") >= q(2000, 40000) && rep.Counter("getfile_not_available") >= q(40, 800) && rep.Counter("getfile_downloaded") >= q(50, 1000),
 			"getfile local=%d not-available=%d downloaded=%d", rep.Counter("getfile_local"), rep.Counter("getfile_not_available"), rep.Counter("getfile_downloaded"))
 		rep.Floor(rep.Counter("name_roundtrips") >= q(20000, 200000), "name round trips=%d", rep.Counter("name_roundtrips"))
 	}
